@@ -34,6 +34,12 @@ def run(ck):
     from .c08 import h1_h2_h5_influence, h4_keys
     ck.run_rule(h1_h2_h5_influence)
     ck.run_rule(h4_keys)
+    # a recorded position is recognised again only if play reaches the very same State (all hashed components) as the one recorded,
+    # whether it came from a FEN or from earlier play: the successor's side to move, rights and en passant target are exact (C02's U2-U5)
+    from . import c02 as _c02
+    _ctx = {}
+    for _r in (_c02.collect_sets, _c02.u2_rights, _c02.u3_u5_state_fields):
+        ck.run_rule(_r, _ctx)
 
 
 def d1_d2_d3(ck):
